@@ -560,6 +560,11 @@ def run(ctx):
                 return "lit"
             if n == "next" and "Iterator" in (t.j.get("callee_inst") or ""):
                 return "next"
+            if n in ("eq", "ne") and "printf::Justify" in (t.j.get("callee_inst") or ""):
+                # `*justify == Justify::Right`: the comparison of the derived PartialEq instead of a match
+                vs_ = [str(x.a).split("::")[-1] for a_ in t.args for x in prim.resolve_promoted(pp, prim.origin_of_operand(pp, a_)).walk() if x.k == "agg" and "printf::Justify::" in str(x.a)]
+                if len(vs_) == 1:
+                    return "j%s:%s" % (n, vs_[0])
             return None
         def jbrole(f_, bb_, o_):
             o_ = o_.strip()
@@ -595,6 +600,9 @@ def run(ctx):
                             outs = jg.succ(cur, str(jidx))
                             if not outs:
                                 outs = jg.succ(cur, "else")
+                        elif r_.startswith(("jeq:", "jne:")):
+                            truth = (r_[4:] == jname) == r_.startswith("jeq:")
+                            outs = jg.succ(cur, "else") if truth else jg.succ(cur, "0")
                         else:
                             outs = jg.succ(cur)
                         outs = sorted(set(outs))
